@@ -1,7 +1,207 @@
 package verifsim
 
-// placeholder for the real-ceremony wiring (filled in later)
-type realCeremony struct{ r *Replica }
+import (
+	"encoding/json"
+	"fmt"
+	"sort"
+	"sync"
+	"time"
 
-func newRealCeremony(r *Replica) *realCeremony { panic("real ceremony mode not built yet") }
-func (c *realCeremony) initialize()            {}
+	"github.com/idena-network/idena-go/blockchain/types"
+	"github.com/idena-network/idena-go/common"
+	"github.com/idena-network/idena-go/core/appstate"
+	"github.com/idena-network/idena-go/core/ceremony"
+	"github.com/idena-network/idena-go/core/flip"
+	"github.com/idena-network/idena-go/core/mempool"
+	"github.com/idena-network/idena-go/rpc"
+	"github.com/idena-network/idena-go/stats/collector"
+)
+
+// Real-ceremony mode of a replica: the objects node.NewNodeWithInjections wires for the
+// validation ceremony (mempool.KeysPool, flip.Flipper, ceremony.ValidationCeremony), started
+// with the call sequence of node.StartWithHeight (flipKeyPool.Initialize, fp.Initialize,
+// ceremony.Initialize(head block), chain.ProvideApplyNewEpochFunc(ceremony.ApplyNewEpoch)).
+// The protocol.Syncer is a stub that is never syncing. The function handed to the chain is
+// the real ApplyNewEpoch wrapped by a recorder that keeps a canonicalised copy of every
+// returned TotalValidationResult (observation only).
+type realCeremony struct {
+	r       *Replica
+	Keys    *mempool.KeysPool
+	Flipper *flip.Flipper
+	VC      *ceremony.ValidationCeremony
+}
+
+type neverSyncing struct{}
+
+func (neverSyncing) IsSyncing() bool { return false }
+
+// EpochEval is one evaluation of ApplyNewEpoch observed on a replica.
+type EpochEval struct {
+	Replica   string
+	Restarts  int    // how often the replica had been restarted when it evaluated
+	Height    uint64
+	Ordinal   int    // n-th evaluation of this height by this ceremony object (0 = first pass)
+	CacheHit  bool   // the per-height cache was populated before the call
+	Failed    bool
+	Count     int
+	Dump      string // canonicalised TotalValidationResult
+}
+
+var (
+	evalMu  sync.Mutex
+	evalLog = map[*World][]*EpochEval{}
+)
+
+// EpochEvals returns (and keeps) the evaluations recorded for a world.
+func (w *World) EpochEvals() []*EpochEval {
+	evalMu.Lock()
+	defer evalMu.Unlock()
+	return append([]*EpochEval{}, evalLog[w]...)
+}
+
+// DropEpochEvals forgets the recorded evaluations of a world.
+func (w *World) DropEpochEvals() {
+	evalMu.Lock()
+	delete(evalLog, w)
+	evalMu.Unlock()
+}
+
+// Real returns the real-ceremony objects of a replica (nil in synthetic mode).
+func (r *Replica) Real() *realCeremony {
+	if r.Epoch == nil {
+		return nil
+	}
+	return r.Epoch.real
+}
+
+func newRealCeremony(r *Replica) *realCeremony {
+	if r.Cfg.RPC == nil {
+		// ValidationCeremony.determineClientType reads config.RPC.HTTPPort when the node
+		// broadcasts its own short answers
+		r.Cfg.RPC = &rpc.Config{}
+	}
+	c := &realCeremony{r: r}
+	c.Keys = mempool.NewKeysPool(r.DB, r.AppState, r.Bus, r.SecStore)
+	c.Flipper = flip.NewFlipper(r.DB, r.Ipfs, c.Keys, r.TxPool, r.SecStore, r.AppState, r.Bus)
+	c.VC = ceremony.NewValidationCeremony(r.AppState, r.Bus, c.Flipper, r.SecStore, r.DB, r.TxPool, r.Chain, neverSyncing{}, c.Keys, r.Cfg)
+	vc := c.VC
+	ordinals := map[uint64]int{}
+	r.Chain.ProvideApplyNewEpochFunc(func(height uint64, as *appstate.AppState, sc collector.StatsCollector) types.TotalValidationResult {
+		_, _, hit := vc.VerifEpochCache(height)
+		res := vc.ApplyNewEpoch(height, as, sc)
+		ev := &EpochEval{Replica: r.Name, Restarts: r.Restarts, Height: height, Ordinal: ordinals[height], CacheHit: hit, Failed: res.Failed,
+			Count: res.IdentitiesCount, Dump: CanonEpochResult(res)}
+		ordinals[height]++
+		evalMu.Lock()
+		evalLog[r.W] = append(evalLog[r.W], ev)
+		evalMu.Unlock()
+		return res
+	})
+	return c
+}
+
+func (c *realCeremony) initialize() {
+	head := c.r.Chain.Head
+	c.Keys.Initialize(head)
+	c.Flipper.Initialize()
+	c.VC.Initialize(c.r.Chain.GetBlock(head.Hash()))
+}
+
+// WaitLottery blocks (real time, bounded) until the asynchronous flip lottery calculation of
+// the replica's ceremony is finished. A node has minutes for this; the harness produces the
+// next block right away, so it has to wait explicitly.
+func (c *realCeremony) WaitLottery(max time.Duration) bool {
+	deadline := time.Now().Add(max)
+	for !c.VC.VerifLotteryFinished() {
+		if time.Now().After(deadline) {
+			return false
+		}
+		time.Sleep(200 * time.Microsecond)
+	}
+	return true
+}
+
+// ------------------------------------------------------------------ canonical form of an epoch result
+
+type canonShard struct {
+	Shard        uint32
+	BadAuthors   []string
+	GoodAuthors  []string
+	AuthorRes    []string
+	GoodInviters []string
+	Reporters    []string
+}
+
+type canonResult struct {
+	IdentitiesCount int
+	Failed          bool
+	Pools           []string
+	NonValidated    []string
+	Shards          []canonShard
+}
+
+func ax(a common.Address) string { return fmt.Sprintf("%x", a[:6]) }
+
+// CanonEpochResult renders a TotalValidationResult with every map and set-like slice sorted.
+func CanonEpochResult(res types.TotalValidationResult) string {
+	c := canonResult{IdentitiesCount: res.IdentitiesCount, Failed: res.Failed}
+	for a := range res.Pools {
+		c.Pools = append(c.Pools, ax(a))
+	}
+	sort.Strings(c.Pools)
+	for a, v := range res.NonValidatedStakes {
+		c.NonValidated = append(c.NonValidated, ax(a)+"="+v.String())
+	}
+	sort.Strings(c.NonValidated)
+	var ids []int
+	for id := range res.ShardResults {
+		ids = append(ids, int(id))
+	}
+	sort.Ints(ids)
+	for _, id := range ids {
+		sr := res.ShardResults[common.ShardId(id)]
+		cs := canonShard{Shard: uint32(id)}
+		if sr == nil {
+			c.Shards = append(c.Shards, cs)
+			continue
+		}
+		for a, reason := range sr.BadAuthors {
+			cs.BadAuthors = append(cs.BadAuthors, fmt.Sprintf("%s:%d", ax(a), reason))
+		}
+		sort.Strings(cs.BadAuthors)
+		for a, v := range sr.GoodAuthors {
+			var fl []string
+			for _, f := range v.FlipsToReward {
+				fl = append(fl, fmt.Sprintf("%x/%d/%s", trunc(f.Cid, 8), f.Grade, f.GradeScore.String()))
+			}
+			sort.Strings(fl)
+			cs.GoodAuthors = append(cs.GoodAuthors, fmt.Sprintf("%s:missed=%v:new=%d:flips=%v", ax(a), v.Missed, v.NewIdentityState, fl))
+		}
+		sort.Strings(cs.GoodAuthors)
+		for a, v := range sr.AuthorResults {
+			cs.AuthorRes = append(cs.AuthorRes, fmt.Sprintf("%s:%v/%v/%v", ax(a), v.HasOneReportedFlip, v.HasOneNotQualifiedFlip, v.AllFlipsNotQualified))
+		}
+		sort.Strings(cs.AuthorRes)
+		for a, v := range sr.GoodInviters {
+			var inv []string
+			for _, s := range v.SuccessfulInvites {
+				inv = append(inv, fmt.Sprintf("%s/age%d/%x/%d/pen=%v", ax(s.Address), s.Age, s.TxHash[:4], s.EpochHeight, s.Penalized))
+			}
+			sort.Strings(inv)
+			cs.GoodInviters = append(cs.GoodInviters, fmt.Sprintf("%s:pay=%v:new=%d:invites=%v", ax(a), v.PayInvitationReward, v.NewIdentityState, inv))
+		}
+		sort.Strings(cs.GoodInviters)
+		for flipIdx, m := range sr.ReportersToRewardByFlip {
+			var rs []string
+			for a, cnd := range m {
+				rs = append(rs, fmt.Sprintf("%s/new=%d", ax(a), cnd.NewIdentityState))
+			}
+			sort.Strings(rs)
+			cs.Reporters = append(cs.Reporters, fmt.Sprintf("%04d:%v", flipIdx, rs))
+		}
+		sort.Strings(cs.Reporters)
+		c.Shards = append(c.Shards, cs)
+	}
+	b, _ := json.Marshal(c)
+	return string(b)
+}
